@@ -57,9 +57,6 @@ Definition wants_new (e : dentry) : bool := is_some (d_after e) && negb (is_some
 Definition blocked (d : list dentry) (f0 : fs) (e : dentry) : bool :=
   wants_new e && obstacle d f0 (d_path e).
 
-Definition states_get (s : list (path * bool)) (p : path) : option bool :=
-  match find (fun pb => path_eqb (fst pb) p) s with Some pb => Some (snd pb) | None => None end.
-
 Definition has_placeholder (s : list (path * bool)) (p : path) : bool :=
   existsb (fun pb => path_eqb (fst pb) p && snd pb) s.
 
@@ -101,10 +98,6 @@ Definition anchor_b (rn : list name) (f : fs) : bool :=
   existsb (fun qe => match fst qe with [x] => is_reserved rn x | _ => false end) f.
 Definition paths_ok_b (d : list dentry) : bool :=
   forallb (fun e => match d_path e with [] => false | _ => true end) d.
-
-Definition states_sub (a b : list (path * bool)) : bool :=
-  forallb (fun pb => option_eqb Bool.eqb (states_get a (fst pb)) (states_get b (fst pb))) a.
-Definition states_eqb (a b : list (path * bool)) : bool := states_sub a b && states_sub b a.
 
 (** detail: 1 diff order, 2 result, 3 disk, 4 file states, 5 trace has an unsafe call,
     6 the recorded inputs do not satisfy the hypotheses of the theorems *)
